@@ -110,10 +110,6 @@ math_table = {
         "real": "creal",
         "imag": "cimag",
         "conj": "conj",
-        "max_value": "fmax",
-        "min_value": "fmin",
-        "bessel_y": "yn",
-        "bessel_j": "jn",
     },
     "complex64": {
         "sqrt": "csqrtf",
@@ -136,10 +132,6 @@ math_table = {
         "real": "crealf",
         "imag": "cimagf",
         "conj": "conjf",
-        "max_value": "fmaxf",
-        "min_value": "fminf",
-        "bessel_y": "yn",
-        "bessel_j": "jn",
     },
 }
 
@@ -371,11 +363,10 @@ class Formatter(FormatterInterface):
         # Get a table of functions for this type, if available
         arg_type = self.scalar_type
         if hasattr(c.args[0], "dtype"):
-            # The real function may only be used if no other argument is
-            # complex-valued (e.g. a real base raised to a complex exponent)
-            if c.args[0].dtype == L.DataType.REAL and not any(
-                getattr(arg, "dtype", None) == L.DataType.SCALAR for arg in c.args[1:]
-            ):
+            # The real function is used exactly when no argument is
+            # complex-valued (not e.g. for a real base raised to a complex
+            # exponent, or a Bessel function of integer order and complex argument)
+            if not any(getattr(arg, "dtype", None) == L.DataType.SCALAR for arg in c.args):
                 arg_type = self.real_type
         else:
             warnings.warn(f"Syntax item without dtype {c.args[0]}")
